@@ -111,6 +111,17 @@ CLAIMED = {
          "harness. The additivity statement 'min over all ancillas of the sum = sum of the minima' is carried per constraint "
          "(disjoint blocks are proved; the explicit min-exchange lemma is not).",
     technique="Coq proof (branch-by-branch evaluation identities + integer arithmetic lemmas) + model/implementation correspondence", ref="§5 C02"),
+ "C06": dict(
+    text="Coq theorem C06_logic: for each of the sixteen methods, every admissible arity, operands that are labels or nested "
+         "0/1-valued expressions, every lam <> 0: the added terms are lam * G with no ancilla, G = 0 exactly on the assignments "
+         "where the gate relation holds (resp. equals the first argument) and G >= 1 on all others, and the recorded == "
+         "constraint holds exactly there (is_solution_valid). Proved by following the source literally (nested PCBO() helper "
+         "objects, the halves split of eq_AND/eq_NAND, the 2-operand closed forms) -- C06_poly gives value, bounds and zero set of "
+         "each polynomial, then C02's theorem for add_constraint_eq_zero applies (including the a == b*c shortcut that "
+         "eq_BUFFER(a, AND(x,y)) hits). Tied to /repo by exact comparison of terms / constraints / errors after every call and "
+         "a truth-table oracle.",
+    note="Trusted: Coq kernel + vm_compute; no axioms; hand-written model of the logic methods of _pcbo.py and of sat/; harness.",
+    technique="Coq proof (case analysis over the 16 methods on top of C02/C05/C07 theorems) + model/implementation correspondence", ref="§5 C06"),
 }
 NA_REASON = "check not built yet in this round; see DESIGN.md §8 (order of work)"
 
